@@ -5,7 +5,7 @@ import numpy as np
 
 PROPS_MODULE = "NessaiVerif.Props.C04"
 MANIFEST = dict(
-    text="TRANSLATION TIE: OrderedSamples.add_to_nested_samples (the index program every removal and the finalisation go through) is translated from the current source (harness/pyarr2lean.py -> Gen/OrderedTx.lean) and theorem add_to_nested_samples_source_eq_model proves it equal to the model's addToNested. "
+    text="TRANSLATION TIE for ALL FIVE mutating methods of OrderedSamples: add_to_nested_samples (harness/pyarr2lean.py -> Gen/OrderedTx.lean, add_to_nested_samples_source_eq_model) and add_initial_samples, add_samples (both threshold modes, the get_inverse_indices remap, the live-index merge, every None/TypeError/ValueError/RuntimeError exit), remove_samples (both modes) and finalise (harness/pyidx2lean.py -> Gen/OrderedOps.lean; add_initial_samples_source_eq_model, add_samples_source_eq_model, remove_samples_source_eq_model, finalise_source_eq_model) are translated statement by statement from the current source on every run and proved equal to the model's operations on every state in which samples is None only if the live indices are. "
          "Lean refinement proof over a literal model of OrderedSamples (np.searchsorted/np.insert index arithmetic, "
          "get_inverse_indices remap, add_to_nested_samples, remove_samples, finalise): for every operation sequence of "
          "any length and any batch sizes the store stays sorted, live/nested index arrays are strictly increasing and "
@@ -16,7 +16,7 @@ MANIFEST = dict(
          "with the property's predicates evaluated on the real object after every operation.",
     note="np.argsort(order='logL') tie-breaking by the remaining dtype fields (unique id first) is mirrored by the model's "
          "(key,id) order; states reached after an exception are not explored (the sequence ends at the first error).",
-    technique="Lean 4 proof (invariant + refinement by induction over op sequences) + source-to-Lean translation of add_to_nested_samples re-proved equal to the model on every run + differential correspondence",
+    technique="Lean 4 proof (invariant + refinement by induction over op sequences) + source-to-Lean translation of all five mutating methods of OrderedSamples re-proved equal to the model on every run + differential correspondence",
     ref="5/C04")
 
 NEG = -999  # stands for a likelihood of -inf (the model treats it as an ordinary smallest key, as NumPy does)
@@ -303,6 +303,37 @@ def gen(ctx):
     changed = py2lean.write_if_changed(core.LEAN / "NessaiVerif" / "Gen" / "OrderedTx.lean", text)
     ctx.extra["generated"] = {"add_to_nested_samples": dict(source=spec.source, lines=[t.first_line, t.last_line], sha256=t.sha256,
                                                               rewritten=changed)}
+    gen_ops(ctx)
+
+
+def gen_ops(ctx):
+    """regenerate Gen/OrderedOps.lean: add_initial_samples, add_samples, remove_samples and finalise of OrderedSamples translated
+    statement by statement by harness/pyidx2lean.py; C04.*_source_eq_model prove them equal to the model's operations."""
+    from . import core, py2lean
+    from . import pyidx2lean as X
+    specs = [X.IdxSpec(func="add_initial_samples", name="add_initial_samples", params=[("samples", "new", X.ARR), ("log_q", "newRows", X.ROWS)]),
+             X.IdxSpec(func="add_samples", name="add_samples", params=[("samples", "new", X.ARR), ("log_q", "newRows", X.ROWS)]),
+             X.IdxSpec(func="remove_samples", name="remove_samples", returns=X.NAT),
+             X.IdxSpec(func="finalise", name="finalise")]
+    parts, infos = [], {}
+    try:
+        for sp in specs:
+            lean, info = X.translate(core.REPO, sp)
+            parts.append(lean)
+            infos[sp.func] = info
+    except py2lean.TranslationError as e:
+        ctx.broken(f"translator: {e}", "Gen/OrderedOps.lean was left as it was (the theorems are about the last translatable source)")
+        return
+    except (OSError, SyntaxError) as e:
+        ctx.broken(f"translator: cannot read/parse the source: {e}")
+        return
+    text = ("import NessaiVerif.Model.OrderedSamples\n"
+            "/-\nGENERATED by harness/pyidx2lean.py (harness/c04.py gen_ops) from the CURRENT nessai source — do not edit.\n"
+            "C04: the index programs of OrderedSamples.\n-/\n"
+            "namespace NessaiVerif.Gen.OrderedOps\nopen NessaiVerif NessaiVerif.Np NessaiVerif.Ordered\n\n"
+            + "\n".join(parts) + "\nend NessaiVerif.Gen.OrderedOps\n")
+    rewritten = py2lean.write_if_changed(core.LEAN / "NessaiVerif" / "Gen" / "OrderedOps.lean", text)
+    ctx.extra["generated"].update(dict(infos, ops_rewritten=rewritten))
 
 
 def correspond(ctx):
